@@ -23,6 +23,8 @@ pub enum Case {
     Aead { len: usize, fill: Fill, aad_len: usize },
     KeyString { s: String },
     HostileHeader { mode_pass: bool, len_field: u32, flag: u32, body: usize, keep_records: usize },
+    /// a complete authentic stream followed by `tail` further bytes
+    HostileTail { mode_pass: bool, tail: usize },
 }
 
 fn authentic_key_file() -> Vec<u8> { let (s, r) = (kx::ident(9, "S"), kx::ident(9, "R")); kx::key_encrypt_chunked(&gen::bytes_from(9, 300), &[100, 100, 100], &s, &r.pk, &gen::key32(9, "e"), &gen::key32(9, "p")).unwrap() }
@@ -81,6 +83,19 @@ pub fn check(c: &Case) -> CheckResult {
             ensure!(pulled <= cut + 16 + 65536 + 16, "after the last verified record {} further bytes were pulled from the source (bound {})", pulled - cut, 16 + 65536 + 16);
             ok(true, format!("hostile-len/{}", if *len_field > 65536 { ">cs" } else { "<=cs" }))
         }
+        Case::HostileTail { mode_pass, tail } => {
+            let (key, aad): ([u8; 32], Vec<u8>) = (gen::key32(4, "ht"), if *mode_pass { kspec::MAGIC_PASS.to_vec() } else { vec![] });
+            let plain = gen::bytes_from(4, 65536 + 50);
+            let honest = kx::enc_chunks_chunked(&plain, &[65536, 50], &key, &aad, 65536)?;
+            let mut hostile = honest.clone(); hostile.resize(honest.len() + tail, 0x41);
+            let measure = |data: &[u8]| -> (bool, isize, usize, usize) { alloc::reset(1 << 20); let base = alloc::live(); let (res, sh) = kx::dec_chunks(data, &RSched::full(), &WSched::all(), None, &key, &aad, 65536); (res.is_ok(), alloc::peak() - base, alloc::largest(), sh.src_off.get()) };
+            let (hok, hpeak, hlargest, _) = measure(&honest); ensure!(hok, "honest stream rejected");
+            let (aok, peak, largest, pulled) = measure(&hostile);
+            ensure!(!aok, "a stream followed by {} extra bytes was accepted", tail);
+            ensure!(peak <= hpeak + 65536 && largest <= hlargest + 65536, "rejecting {} bytes of trailing data used {} bytes of heap (largest allocation {}), the honest stream needs {} (largest {})", tail, peak, largest, hpeak, hlargest);
+            ensure!(pulled <= honest.len() + 16 + 65536 + 16, "{} bytes were pulled from the source after the final chunk had verified (bound {})", pulled - honest.len(), 16 + 65536 + 16);
+            ok(true, "hostile-tail")
+        }
     }
 }
 
@@ -127,6 +142,24 @@ pub fn argv_from_index(mut i: usize) -> Argv {
     Argv { toks, env_keyring }
 }
 
+#[derive(Clone, Debug, Serialize, Deserialize)]
+pub struct KeyArg { pub s: String, pub cmd: u8 }
+pub fn check_keyarg(k: &KeyArg) -> CheckResult {
+    let id = super::c13::ids(); let sb = Sandbox::new();
+    let mut runs = Vec::new();
+    let sub = if k.cmd % 2 == 0 { "extract-pub" } else { "change-pass" };
+    if !k.s.starts_with('-') && !k.s.is_empty() { runs.push(sb.cmd(&["key", sub, &k.s, "--env-pass"]).env("KESTREL_PASSWORD", "wrong").env("KESTREL_NEW_PASSWORD", "new").run()); }
+    if !k.s.contains('\n') && !k.s.contains('\r') {
+        sb.write("k.txt", format!("[Key]\nName = bob\nPublicKey = {}\nPrivateKey = {}\n", id.bob.epk, k.s).as_bytes()); sb.write("in.ktl", &gen::bytes_from(1, 200));
+        runs.push(sb.cmd(&["decrypt", "in.ktl", "-t", "bob", "-o", "out", "-k", "k.txt", "--env-pass"]).env("KESTREL_PASSWORD", "wrong").run());
+    }
+    for r in &runs {
+        ensure!(!r.timed_out && r.signal.is_none() && matches!(r.code, Some(0) | Some(1)), "the tool ended abnormally for key string {:?}: {}", k.s, r.describe());
+        if r.code == Some(1) { ensure!(r.stderr_s().lines().any(|l| l.starts_with("Error:")), "exit status 1 without an 'Error:' line: {:?}", r.stderr_s()); }
+    }
+    ok(!k.s.is_empty(), format!("cli-key-arg/{}", sub))
+}
+
 pub fn check_mutant(c: &MCase) -> CheckResult { let (p, _f, res, _sh, _) = mutate::present(c); ok(!res.is_ok(), format!("mutant/{}", mutate::classify(&p, &c.m))) }
 #[derive(Clone, Debug, Serialize, Deserialize)]
 pub struct Text { pub t: String }
@@ -145,6 +178,12 @@ pub fn run(ctx: &Ctx) {
     let mut hh = Vec::new();
     for mode_pass in [false, true] { for keep in 0..4usize { for lf in [0u32, 1, 65535, 65536, 65537, 1 << 20, 1 << 31, u32::MAX] { for flag in [0u32, 1, 7] { for body in [0usize, 16, 70_000] { hh.push(Case::HostileHeader { mode_pass, len_field: lf, flag, body, keep_records: keep }); } } } } }
     ctx.sse_vec("hostile_header_fields", "2 AAD modes x 0..3 authentic 64 KiB records x 8 length-field values x 3 flag values x 3 body sizes; heap and read-ahead compared with the honest stream", hh, check);
+    ctx.sse_vec("hostile_tail", "complete authentic stream + 1 B .. 16 MiB of trailing bytes, both AAD modes: heap and read-ahead bounded as for the honest stream", [1usize, 100, 70_000, 1 << 20, 16 << 20].iter().flat_map(|&tail| [false, true].map(move |mode_pass| Case::HostileTail { mode_pass, tail })).collect(), check);
+    // valid key strings with one character inserted / doubled (lenient validation + strict use would panic)
+    let vsk = kspec::lock_private_key_with(&[7u8; 32], &[9u8; 32], &[3u8; 32]); let vpk = kspec::encode_public_key(&kspec::x25519_base(&[5u8; 32]));
+    let mut ins = Vec::new();
+    for base in [&vsk, &vpk] { let cs: Vec<char> = base.chars().collect(); for pos in 0..=cs.len() { for ch in [' ', '\n', '\t', '\r', '=', '-', 'A'] { let mut v = cs.clone(); v.insert(pos, ch); ins.push(Case::KeyString { s: v.into_iter().collect() }); } } }
+    ctx.sse_vec("key_string_insertions", "a valid locked key (112 chars) and a valid public key (48 chars) with each of 7 characters inserted at every position", ins, check);
     ctx.sse_vec("pass_header_kdf_cost", "forged password-mode headers: number of scrypt-sized allocations and peak heap equal to the honest file's", [0u32, 70_000, u32::MAX].iter().flat_map(|&lf| [0usize, 100].map(move |b| PassCost { len_field: lf, salt: lf as u64 + b as u64, body: b })).collect(), check_pass_cost);
     let seed = ctx.seed;
     ctx.pbt("mutants_no_panic", ctx.n(40_000, 1_000_000), || super::c03::strat(PoolSel::KeySmall, seed, 6, 100), check_mutant);
@@ -161,5 +200,10 @@ pub fn run(ctx: &Ctx) {
     ctx.shrink_iters.store(200, std::sync::atomic::Ordering::Relaxed);
     let maxlen = 3u32; let total = (0..=maxlen).map(|l| VOCAB.pow(l)).sum::<usize>() * 2;
     ctx.sse("argv_sequences", &format!("every argument vector of <= {} tokens over a {}-token vocabulary x keyring variable {{valid, unset}}", maxlen, VOCAB), if ctx.quick() { total } else { total }, argv_from_index, check_argv);
+    // key strings as command-line arguments of the real binary
+    let mut keyargs: Vec<KeyArg> = Vec::new();
+    { let cs: Vec<char> = vsk.chars().collect(); for pos in (0..=cs.len()).step_by(7) { for ch in [' ', '\n', '=', '-'] { let mut v = cs.clone(); v.insert(pos, ch); keyargs.push(KeyArg { s: v.iter().collect(), cmd: (pos % 2) as u8 }); } }
+      for l in [0usize, 1, 47, 48, 111, 113, 200] { keyargs.push(KeyArg { s: vsk.chars().cycle().take(l).collect(), cmd: (l % 2) as u8 }); } keyargs.push(KeyArg { s: vpk.clone(), cmd: 0 }); keyargs.push(KeyArg { s: "é".repeat(56), cmd: 1 }); }
+    ctx.sse_vec("cli_key_arguments", "malformed and near-valid locked-key strings given to `key extract-pub` / `key change-pass`, and the same strings as the PrivateKey line of the keyring used by `decrypt`", keyargs, check_keyarg);
     ctx.pbt("argv_random", ctx.n(6_000, 150_000), || (proptest::collection::vec(0usize..VOCAB, 0..9), 0u8..4).prop_map(|(toks, env_keyring)| Argv { toks, env_keyring }), check_argv);
 }
